@@ -13,7 +13,9 @@ Fail(c, k) == c \o "@" \o ToString(k)
 (* in memory) say more than the properties do: they are evaluated only with FV_STRICT=1        *)
 Strict == "FV_STRICT" \in DOMAIN IOEnv /\ IOEnv.FV_STRICT = "1"
 
-UnitsOf(cfg) == IF cfg.pay = "temp" THEN "°C" ELSE IF cfg.kind = "sum" /\ cfg.pt THEN "mm" ELSE "mm / d"
+UnitsOf(cfg) == IF cfg.pay = "temp" THEN "°C"
+                ELSE IF cfg.pay = "flux" THEN (IF cfg.kind = "sum" /\ cfg.pt THEN "m" ELSE "m / s")
+                ELSE IF cfg.kind = "sum" /\ cfg.pt THEN "mm" ELSE "mm / d"
 
 SnapVerdict(s2, e, k) ==
   IF Strict /\ e.ret # [j \in 1..Len(s2.lab) |-> s2.lab[j].t] THEN Fail("buffer-retained", k)
